@@ -34,7 +34,12 @@ type Case struct {
 	RT      string   `json:"rt,omitempty"`
 	Init    string   `json:"init,omitempty"`
 	Perm    int      `json:"perm,omitempty"` // rotation of the keyword arguments
-	Block   string   `json:"block,omitempty"`
+	// Route tells how sequence-1 is obtained: "" a fresh literal, or the result of
+	// another operation (cdr sub rev nrev del fp push, see routes.go).
+	Route string `json:"route,omitempty"`
+	Same  bool   `json:"same,omitempty"`  // sequence-2 is the same object as sequence-1
+	Prior bool   `json:"prior,omitempty"` // a failed call of the same function on the same sequence precedes the call
+	Block string `json:"block,omitempty"`
 }
 
 // expect is what the language definition pins for a case.
